@@ -96,7 +96,12 @@ def run_one(tape, cfg):
         hfpo = (not single) and tape.chance(1, 3, "hfpo")
         namefn = (not single) and tape.chance(1, 3, "namefn")
         klass = "io_error" if tape.draw(6, "klass") == 0 else "fault_free"
-    wl = {"rows": n, "frame": df.astype(str).values.tolist(), "columns": list(df.columns), "nparts": nparts,
+        # partitions cut at drawn positions (equal cuts give empty partitions, also the first one);
+        # stale, longer files already present at the target paths
+        cut_parts = n > 0 and tape.chance(1, 3, "cut_parts")
+        cuts = sorted(tape.draw(n + 1, "cut") for _ in range(nparts - 1)) if cut_parts else []
+        stale = tape.chance(1, 3, "stale")
+    wl = {"cuts": cuts if cut_parts else None, "stale_files": stale, "rows": n, "frame": df.astype(str).values.tolist(), "columns": list(df.columns), "nparts": nparts,
           "single_file": single, "index": index, "header_first_partition_only": hfpo, "name_function": namefn,
           "blocksize": blocksize, "class": klass}
     out.decoded = wl
@@ -109,9 +114,25 @@ def run_one(tape, cfg):
         out.probe("quoted_field")
     out.abstract = (("single" if single else "multi",
                      "none" if blocksize is None else ("small" if blocksize <= 64 else "large")),)
-    d = dd.from_pandas(df, npartitions=nparts, sort=False) if n else \
-        dd.from_pandas(df, npartitions=1)
-    parts_pd = [p for p in dask.compute(*d.to_delayed(), scheduler="sync")]
+    if cut_parts:
+        bounds = [0] + cuts + [n]
+        pieces = [df.iloc[a:b] for a, b in zip(bounds[:-1], bounds[1:])]
+        d = dd.from_delayed([dask.delayed(p) for p in pieces], meta=df.iloc[:0], verify_meta=False)
+        parts_pd = pieces
+        if any(len(p) == 0 for p in pieces):
+            out.probe("empty_partition")
+            if len(pieces[0]) == 0:
+                out.probe("empty_first_partition")
+    else:
+        d = dd.from_pandas(df, npartitions=nparts, sort=False) if n else \
+            dd.from_pandas(df, npartitions=1)
+        parts_pd = [p for p in dask.compute(*d.to_delayed(), scheduler="sync")]
+    if stale:
+        out.probe("stale_target_files")
+        junk = ("stale,content\n" * 40).encode()
+        for nm in ["/out/all.csv"] if single else \
+                [f"/out/part-p{i:03d}.csv" if namefn else f"/out/part-{i}.csv" for i in range(len(parts_pd))]:
+            simfs.put("simfs:/" + nm, junk)
     runs, digests = [], []
     problem = None
     fault_fired = 0
